@@ -375,6 +375,8 @@ def run(c):
              dict(wait=["c1"], cached=["c2"], handle=["c3"], nw=2, maxfetch=2)),
             ("g3", 6 if not thorough else 7, 80 if not thorough else 800,
              dict(wait=["c1", "c2"], key2=["c2"], cached=["c3"], nw=2, keys="{1, 2}", maxfetch=1))]
+    if not thorough:
+        gens = gens[:2]   # two pairs are covered by the fine stage (f2) in the quick tier
     total_replayed = conform = inconclusive = 0
     nontriv = set()
     replay_traces = []
